@@ -140,6 +140,7 @@ pub fn generate(out: &mut Out, rng: &Prng, thorough: bool, workdir: &std::path::
         let with2 = with.clone();
         let irng2 = irng.clone();
         let mut g = Gen {
+            meas: super::gen_inst::MeasOracle::default(),
             ex: InstExec::new(),
             out: &mut base_sink,
             w: World { own_clock: [0; 8], own_sdo: 0, own_domain: 0, masters: vec![], ports: vec![], parent: String::new(), now: 0, path_trace: false, slave_only: false },
